@@ -17,20 +17,29 @@ Section CoreBatch.
       destruct (gen_n K a st1) as [st2 x]. destruct (gen_n K b st2); reflexivity.
   Qed.
 
-  (* the backend's gen_par_ks_blocks is sc_w single generations *)
-  Hypothesis par_ok : forall st, sc_gen_par K st = gen_n K (sc_w K) st.
+  (* the backend's gen_par_ks_blocks is sc_w single generations, on every state satisfying an
+     invariant P that generation preserves (P = "the state has the shape this core owns") *)
+  Variable P : St -> Prop.
+  Hypothesis P_gen : forall st, P st -> P (fst (sc_gen K st)).
+  Hypothesis par_ok : forall st, P st -> sc_gen_par K st = gen_n K (sc_w K) st.
 
-  Lemma gen_groups_ok g st : gen_groups K g st = gen_n K (g * sc_w K) st.
+  Lemma P_gen_n n st : P st -> P (fst (gen_n K n st)).
+  Proof. revert st; induction n as [|n IH]; intros st H; simpl; auto.
+    specialize (P_gen st H). destruct (sc_gen K st) as [st1 b]. specialize (IH st1 P_gen).
+    destruct (gen_n K n st1); auto. Qed.
+
+  Lemma gen_groups_ok g st : P st -> gen_groups K g st = gen_n K (g * sc_w K) st.
   Proof.
-    revert st; induction g as [|g IH]; intros st; simpl; auto.
-    rewrite par_ok, gen_n_app. destruct (gen_n K (sc_w K) st) as [st1 x]. rewrite IH. reflexivity.
+    revert st; induction g as [|g IH]; intros st H; simpl; auto.
+    rewrite par_ok, gen_n_app by auto. pose proof (P_gen_n (sc_w K) st H) as H1.
+    destruct (gen_n K (sc_w K) st) as [st1 x]. rewrite IH by auto. reflexivity.
   Qed.
 
   (* C07 for keystream cores: n blocks through groups of w + tail = n single generations *)
-  Theorem ks_blocks_gen_n n st : ks_blocks K n st = gen_n K n st.
+  Theorem ks_blocks_gen_n n st : P st -> ks_blocks K n st = gen_n K n st.
   Proof.
-    unfold ks_blocks. destruct (Nat.ltb_spec 1 (sc_w K)) as [Hw|Hw]; auto.
-    rewrite gen_groups_ok.
+    intros HP. unfold ks_blocks. destruct (Nat.ltb_spec 1 (sc_w K)) as [Hw|Hw]; auto.
+    rewrite gen_groups_ok by auto.
     assert (E : n = n / sc_w K * sc_w K + n mod sc_w K).
     { rewrite Nat.mul_comm. apply Nat.div_mod. lia. }
     transitivity (gen_n K (n / sc_w K * sc_w K + n mod sc_w K) st); [|now rewrite <- E].
